@@ -39,7 +39,9 @@ TECHNIQUE = "deterministic simulation: stateful peer, setter then getter, refere
 CONFIGS = [("ET", "v1", "udp"), ("ET", "v2", "udp"), ("ET", "v2", "tcp"), ("ET", "v2_745", "udp"), ("ET", "v2_nopeak", "udp"),
            ("ES", "v1", "udp"), ("ES", "v2", "udp")]
 PRIORS = ["off", "charge247", "discharge247", "type1_on", "type2_off", "type3_on", "type4_on", "type5_off", "t745_on",
-          "t745_charge247", "notset", "garbage", "zeros", "winter_months", "one_month"]
+          "t745_charge247", "notset", "garbage", "zeros", "winter_months", "one_month",
+          # undecodable only AFTER the type byte: a foreign type is recognised, then a field is out of range
+          "type3_badsoc", "t745_badsoc", "type4_badpower"]
 MODE_SLOTS = 8
 PS_PER_CASE = 12
 PS_CHUNKS = {"quick": 1, "thorough": 842}
@@ -133,6 +135,9 @@ def prior_bytes(kind, v2, rnd):
         "notset": v2_group(0xFF, 0xFF, 0xFF, 0xFF, 85, 0, 0, 0, 0),
         "winter_months": v2_group(8, 0, 17, 30, 0xFF, 0x3E, -30, 60, 0x0C03),
         "one_month": v2_group(8, 0, 17, 30, 0, 0x01, 30, 60, 0x0800),
+        "type3_badsoc": v2_group(1, 0, 2, 0, 0xFC, 127, 200, 255, 0),
+        "t745_badsoc": v2_group(6, 0, 7, 0, 0xF9, 127, -450, 255, 0x0FFF),
+        "type4_badpower": v2_group(1, 0, 2, 0, 0xFB, 127, 20, 0xFFFD, 0),
         "garbage": bytes([99, 99, 99, 99, 0x33, 0xAA, 0x7F, 0xFF, 0x12, 0x34, 0x7F, 0xFF]),
         "zeros": bytes(12),
     }
